@@ -14,7 +14,7 @@ from _griffe.collections import LinesCollection, ModulesCollection
 from _griffe.enumerations import Kind, ParameterKind
 from _griffe.expressions import safe_get_annotation
 from _griffe.extensions.base import Extensions, load_extensions
-from _griffe.importer import dynamic_import
+from _griffe.importer import dynamic_import, sys_path
 from _griffe.logger import logger
 from _griffe.models import Alias, Attribute, Class, Docstring, Function, Module, Parameter, Parameters
 
@@ -227,7 +227,11 @@ class Inspector:
                 parent_node = ObjectNode(None, name=part, parent=parent_node)
         module_node = ObjectNode(value, self.module_name, parent=parent_node)
 
-        self.inspect(module_node)
+        # Inspecting members can run code of the package too (lazy imports in a module-level `__getattr__`,
+        # properties, descriptors): it runs with the same import paths as the import above,
+        # and whatever it does to `sys.path` is undone as well.
+        with sys_path(*import_paths):
+            self.inspect(module_node)
         return self.current.module
 
     def inspect(self, node: ObjectNode) -> None:
